@@ -20,28 +20,38 @@ NoOut == [set |-> FALSE]
 EmptyH == [scen |-> "", par |-> [variant |-> "none"], sent |-> <<>>, arr |-> <<>>, del |-> <<>>,
            twinof |-> "", hlog |-> <<>>, flt |-> <<>>, cancel |-> -1, out |-> NoOut, got |-> <<>>, twin |-> NoOut]
 
-Step(h, e) ==
+\* The state keeps only LINE NUMBERS of the events (small states: TLC fingerprints every state); the history record the
+\* Props formulas talk about is materialised from the trace when a scenario returns.
+Step(h, e, ln) ==
     CASE e.event = "Begin"   -> [EmptyH EXCEPT !.scen = e.scen, !.twinof = e.twin,
                                    \* the output of the latest noise-free scenario (the twin when twinof names it)
                                    !.twin = IF h.out.set /\ h.twinof = "" THEN h.out ELSE h.twin]
       [] e.event = "Params"  -> [h EXCEPT !.par = e]
-      [] e.event = "Send"    -> IF "p" \in DOMAIN e
-                                THEN [h EXCEPT !.sent = Append(@, [n |-> e.n, t |-> e.t, ttl |-> e.ttl, run |-> e.run, flow |-> e.flow, p |-> e.p])]
-                                ELSE [h EXCEPT !.sent = Append(@, [n |-> e.n, t |-> e.t, ttl |-> e.ttl, run |-> 1, flow |-> 0, fail |-> e.fail])]
-      [] e.event = "Arrive"  -> [h EXCEPT !.arr = Append(@, [n |-> e.n, t |-> e.t, tag |-> e.tag, for_ttl |-> e.for_ttl, d |-> e.d])]
-      [] e.event = "Deliver" -> [h EXCEPT !.del = Append(@, [n |-> e.n, t |-> e.t, pkt |-> e.pkt, h |-> e.h, run |-> e.run])]
-      [] e.event = "Got"     -> [h EXCEPT !.got = Append(@, e)]
-      [] e.event \in {"Open", "Close", "SetFilter", "UseAfterClose", "Accept"}
-                             -> [h EXCEPT !.hlog = Append(@, [ev |-> e.event, n |-> e.n] @@ e)]
-      [] e.event = "Fault"   -> [h EXCEPT !.flt = Append(@, e)]
+      [] e.event = "Send"    -> [h EXCEPT !.sent = Append(@, ln)]
+      [] e.event = "Arrive"  -> [h EXCEPT !.arr = Append(@, ln)]
+      [] e.event = "Deliver" -> [h EXCEPT !.del = Append(@, ln)]
+      [] e.event \in {"Got", "Alloc"} -> [h EXCEPT !.got = Append(@, ln)]
+      [] e.event \in {"Open", "Close", "SetFilter", "UseAfterClose", "Accept"} -> [h EXCEPT !.hlog = Append(@, ln)]
+      [] e.event = "Fault"   -> [h EXCEPT !.flt = Append(@, ln)]
       [] e.event = "Cancel"  -> [h EXCEPT !.cancel = e.t]
       [] e.event = "Return"  -> [h EXCEPT !.out = [set |-> TRUE] @@ e]
       [] OTHER -> h
 
+SentRec(e) == IF "p" \in DOMAIN e
+              THEN [n |-> e.n, t |-> e.t, ttl |-> e.ttl, run |-> e.run, flow |-> e.flow, p |-> e.p]
+              ELSE [n |-> e.n, t |-> e.t, ttl |-> e.ttl, run |-> 1, flow |-> 0, fail |-> e.fail]
+Mat(h) == [h EXCEPT
+    !.sent = [k \in DOMAIN h.sent |-> SentRec(Trace[h.sent[k]])],
+    !.arr  = [k \in DOMAIN h.arr |-> LET e == Trace[h.arr[k]] IN [n |-> e.n, t |-> e.t, tag |-> e.tag, for_ttl |-> e.for_ttl, d |-> e.d]],
+    !.del  = [k \in DOMAIN h.del |-> LET e == Trace[h.del[k]] IN [n |-> e.n, t |-> e.t, pkt |-> e.pkt, h |-> e.h, run |-> e.run]],
+    !.got  = [k \in DOMAIN h.got |-> Trace[h.got[k]]],
+    !.hlog = [k \in DOMAIN h.hlog |-> LET e == Trace[h.hlog[k]] IN [ev |-> e.event] @@ e],
+    !.flt  = [k \in DOMAIN h.flt |-> Trace[h.flt[k]]]]
+
 Init == l = 1 /\ H = EmptyH
 Next == /\ l <= Len(Trace)
         /\ l' = l + 1
-        /\ H' = Step(H, Trace[l])
+        /\ H' = Step(H, Trace[l], l)
 Spec == Init /\ [][Next]_vars
 
 ---------------------------------------------------------------------------
@@ -83,8 +93,9 @@ C09_twin(h, s, d) ==
 \* is property p applicable to the finished scenario h / does it hold (evaluated lazily, only when applicable)
 App(p, h) ==
     LET s == snt1(h)  ok == h.out.ok IN
-    CASE EngRun(h) -> p \in {"C03", "C05", "C06", "C08", "C10"} \/ (p = "C07" /\ h.par.variant = "engine_parallel")
-      [] ReqRun(h) -> p = "C15" \/ (p = "C19" /\ h.par.expect.kind # "none")
+    CASE h.out.set /\ h.par.entry = "alloc" -> p = "C11"
+      [] EngRun(h) -> p \in {"C03", "C05", "C06", "C08", "C10"} \/ (p = "C07" /\ h.par.variant = "engine_parallel")
+      [] ReqRun(h) -> (p = "C11" /\ h.par.via = "lib") \/ p = "C15" \/ (p = "C19" /\ h.par.expect.kind # "none") \/ (p = "C20" /\ h.par.expect20.out # "none")
       [] p \in {"C01", "C04", "C05"} -> WireRun(h) /\ ok
       [] p \in {"C02", "C03"}        -> WireRun(h) /\ ok /\ Len(s) >= 1
       [] p \in {"C06", "C08", "C10"} -> WireRun(h)
@@ -98,9 +109,10 @@ App(p, h) ==
 
 Holds(p, h) ==
     LET s == snt1(h)  d == dl1(h)  hp == h.out.hops IN
-    CASE EngRun(h) -> (CASE p = "C03" -> C03_eng(h) [] p = "C05" -> C05_eng(h) [] p = "C06" -> C06_eng(h)
+    CASE h.par.entry = "alloc" -> C11_alloc(h)
+      [] EngRun(h) -> (CASE p = "C03" -> C03_eng(h) [] p = "C05" -> C05_eng(h) [] p = "C06" -> C06_eng(h)
                           [] p = "C07" -> C07_eng(h) [] p = "C08" -> C08_eng(h) [] p = "C10" -> C10_eng(h) [] OTHER -> TRUE)
-      [] ReqRun(h) -> (CASE p = "C15" -> C15_run(h) [] p = "C19" -> C19_run(h) [] OTHER -> TRUE)
+      [] ReqRun(h) -> (CASE p = "C11" -> C11_run(h) [] p = "C15" -> C15_run(h) [] p = "C19" -> C19_run(h) [] p = "C20" -> C20_run(h) [] OTHER -> TRUE)
       [] p = "C01" -> C01_run(h, s, d, hp)
       [] p = "C02" -> C02_run(h, s, d, hp)
       [] p = "C03" -> C03_run(h, s, d, hp)
@@ -115,13 +127,16 @@ Holds(p, h) ==
 \* always TRUE; prints one line per violated (property, scenario)
 Report ==
     H.out.set =>
+      LET hm == Mat(H) IN
       \A p \in PropIds :
-        (Wants(p) /\ App(p, H) /\ ~Holds(p, H)) => PrintT(<<"L1", p, H.scen, l>>)
+        (Wants(p) /\ App(p, hm) /\ ~Holds(p, hm)) => PrintT(<<"L1", p, H.scen, l>>)
 
 \* L2: the design's prediction equals the real output (fault-free, uncancelled, filter-free wire runs)
 L2App(h) == WireRun(h) /\ Len(snt1(h)) >= 1 /\ Len(h.flt) = 0 /\ h.cancel < 0 /\ h.out.panic = ""
 Drift ==
-    (H.out.set /\ Wants("L2") /\ L2App(H) /\ ~Agrees(H, snt1(H), dl1(H))) => PrintT(<<"L2", "drift", H.scen, l>>)
+    (H.out.set /\ Wants("L2")) =>
+      LET hm == Mat(H) IN
+      (L2App(hm) /\ ~Agrees(hm, snt1(hm), dl1(hm))) => PrintT(<<"L2", "drift", H.scen, l>>)
 
 \* acceptance: the whole trace was consumed
 Consumed == TLCGet("level") - 1 = Len(Trace) \/ TRUE
